@@ -58,6 +58,7 @@ func (e *Engine) Run(ctx context.Context) error {
 	ctx, cancel := context.WithCancel(ctx)
 	defer func() {
 		e.log.Info("Engine finished")
+		verifEngine(e, "EngineReturn")
 		cancel()
 	}()
 
@@ -108,6 +109,7 @@ func (e *Engine) Wait() {
 
 func newPool(log *zap.Logger, m Metrics, onWaitDone func(), conf InstancePoolConfig) *instancePool {
 	log = log.With(zap.String("pool", conf.ID))
+	onWaitDone = verifWrapWaitDone(conf.ID, onWaitDone)
 	return &instancePool{log: log, metrics: m, onWaitDone: onWaitDone, InstancePoolConfig: conf}
 }
 
@@ -139,11 +141,13 @@ func (p *instancePool) Run(ctx context.Context) error {
 
 	if err := p.warmUpGun(ctx); err != nil {
 		p.onWaitDone()
+		verifEvent(p.ID, "PoolReturn", 0, err)
 		return err
 	}
 
 	rh, err := p.runAsync(ctx)
 	if err != nil {
+		verifEvent(p.ID, "PoolReturn", 0, err)
 		return err
 	}
 
@@ -152,13 +156,16 @@ func (p *instancePool) Run(ctx context.Context) error {
 	select {
 	case <-ctx.Done():
 		p.log.Info("Pool execution canceled")
+		verifEvent(p.ID, "PoolReturn", 0, ctx.Err())
 		return ctx.Err()
 	case err, ok := <-awaitErr:
 		if ok {
 			p.log.Info("Pool failed. Canceling started tasks", zap.Error(err))
+			verifEvent(p.ID, "PoolReturn", 0, err)
 			return err
 		}
 		p.log.Info("Pool run finished successfully")
+		verifEvent(p.ID, "PoolReturn", 0, nil)
 		return nil
 	}
 }
@@ -267,6 +274,7 @@ func (p *instancePool) newAwaitRunHandle(runHandle *poolAsyncRunHandle) (*runAwa
 		toWait:             resultsToWait,
 		startedInstances:   -1, // Undefined until start finish.
 	}
+	verifBind(awaitHandle, p.ID)
 	return awaitHandle, awaitErr
 }
 
@@ -275,6 +283,7 @@ func (ah *runAwaitHandle) awaitRun() {
 		select {
 		case err := <-ah.providerErr:
 			ah.providerErr = nil
+			verifAwait(ah, "AwaitProvider", 0, err)
 			// TODO(skipor): not wait for provider, to return success result?
 			ah.toWait--
 			ah.log.Debug("AmmoQueue awaited", zap.Error(err))
@@ -283,6 +292,7 @@ func (ah *runAwaitHandle) awaitRun() {
 			}
 		case err := <-ah.aggregatorErr:
 			ah.aggregatorErr = nil
+			verifAwait(ah, "AwaitAggregator", 0, err)
 			ah.toWait--
 			ah.log.Debug("Aggregator awaited", zap.Error(err))
 			if !errutil.IsCtxError(ah.runCtx, err) {
@@ -290,6 +300,7 @@ func (ah *runAwaitHandle) awaitRun() {
 			}
 		case res := <-ah.startRes:
 			ah.startRes = nil
+			verifAwait(ah, "AwaitStart", res.Started, res.Err)
 			ah.toWait--
 			ah.startedInstances = res.Started
 			ah.log.Debug("Instances start awaited", zap.Int("started", ah.startedInstances), zap.Error(res.Err))
@@ -299,6 +310,7 @@ func (ah *runAwaitHandle) awaitRun() {
 			ah.checkAllInstancesAreFinished() // There is a race between run and start results.
 		case res := <-ah.runRes:
 			ah.awaitedInstances++
+			verifAwait(ah, "AwaitInstance", res.ID, res.Err)
 			if ent := ah.log.Check(zap.DebugLevel, "Instance run awaited"); ent != nil {
 				ent.Write(zap.Int("id", res.ID), zap.Int("awaited", ah.awaitedInstances), zap.Error(res.Err))
 			}
@@ -319,7 +331,9 @@ func (ah *runAwaitHandle) awaitRun() {
 func (ah *runAwaitHandle) onErrAwaited(err error) {
 	select {
 	case ah.awaitErr <- err:
+		verifAwait(ah, "ErrForwarded", 0, err)
 	case <-ah.runCtx.Done():
+		verifAwait(ah, "ErrSuppressed", 0, err)
 		if err != ah.runCtx.Err() {
 			ah.log.Debug("Error suppressed after run cancel", zap.Error(err))
 		}
@@ -341,6 +355,7 @@ func (ah *runAwaitHandle) checkAllInstancesAreFinished() {
 	ah.runRes = nil
 	ah.toWait--
 	ah.log.Info("All instances runs awaited.", zap.Int("awaited", ah.awaitedInstances))
+	verifAwait(ah, "AllInstancesFinished", ah.awaitedInstances, nil)
 	ah.runCancel() // Signal to provider and aggregator, that pool run is finished.
 
 }
